@@ -200,3 +200,10 @@ W void w_swap_overflow(int64_t v, int32_t a, unsigned how, Hist* h1, Hist* h2) {
   if (how == 0) swap(d1, d2); else { JsonDocument t(detail::move(d1)); d1 = detail::move(d2); d2 = detail::move(t); }
   h1->overflowed = d1.overflowed(); h2->overflowed = d2.overflowed(); h1->size = d1.is<int32_t>(); h1->e[0] = d1.as<int32_t>(); h2->size = d2.isNull();
 }
+// doc[p+1] = x on an array of p elements (p = 0 or 4 = one full pool) with ONE transient allocator failure, at the pool
+// allocation of the first padding element: the assignment must be reported as failed and nothing half-done may be visible
+W void w_hist_pad_fail(int32_t a, int32_t x, unsigned p, unsigned failAt, Hist* h) {
+  arena.reset(); { JsonDocument doc(&arena); for (unsigned i = 0; i < p; i++) doc.add(a);
+  arena.failmask = failAt ? (1u << (arena.calls + failAt - 1)) : 0;
+  bool ok = doc[p + 1].set(x); h->ok_mask = ok; h->calls_after = arena.calls; observe_arr(doc, h); }
+}
